@@ -79,78 +79,86 @@ theorem toExited_ofExited (p : G.PositionExited) : toExited (ofExited p) = p := 
 
 def ofManager (m : G.PositionManager) : PositionManager := ⟨m.current.map ofPos⟩
 
-/-! ## Kernels -/
+/-! ## Vocabulary (the translator's fixed prelude, which is not part of any group's simp set) -/
 
 theorem abs_agrees (x : Rat) : Generated.Machines.Decimal.abs x = Position.abs x := by
   unfold Generated.Machines.Decimal.abs Position.abs
   grind
 
+/-! ## Shape-independent proofs
+
+Every proof below takes the records apart (`rcases`: case analysis on the DATA — the two sides, and for
+`update_from_trade` the three-way comparison of the quantities), unfolds *everything generated for the group*
+(`gen_position_sm`: the listed functions and whatever auxiliary functions the translator found by lookup, under
+whatever names) together with the model's definitions and the record maps, and lets `grind` decide what is left
+(field arithmetic, comparisons of rationals, constructors). Nothing depends on the names of helper functions or on how
+the source spells the decision (guarded `match` on the pair of sides with an `unreachable!` fallback — shown dead here
+—, or `if side == side` followed by `match a.cmp(&b)`; early `return`; flipped comparisons; hoisted `abs()`;
+reordered independent assignments; extracted constructors). -/
+
+open Lean.Parser.Tactic in
+/-- everything generated for the group, the model's definitions and the record maps -/
+local macro "unfold_psm" loc:(location)? : tactic => `(tactic|
+  simp only [gen_position_sm, Generated.Machines.Decimal.cmp, calculatePriceEntryAverage, approximateRemainingExitFees,
+    calculatePnlUnrealised, calculatePnlRealised, Position.updatePnlUnrealised, Position.updatePnlRealised,
+    Position.ofTrade, PositionExited.ofPosition, Position.pushTrade, Position.increase, Position.reduce,
+    Position.closeExact, Position.flip, Position.Position.updateFromTrade, PositionManager.update, ofSide, toSide, ofTrade,
+    ofPos, ofExited, ofManager, abs_agrees, Option.map] $[$loc]?)
+
+/-- unfold both sides, then case analysis on the data -/
+local macro "psm_agree" : tactic => `(tactic| first | rfl | (unfold_psm; done) | (unfold_psm; grind))
+
+/-! ## Kernels -/
+
 theorem calculate_price_entry_average_agrees (a b c d : Rat) :
-    Generated.Machines.calculate_price_entry_average a b c d = calculatePriceEntryAverage a b c d := by
-  simp only [Generated.Machines.calculate_price_entry_average, calculatePriceEntryAverage] <;> grind
+    Generated.Machines.calculate_price_entry_average a b c d = calculatePriceEntryAverage a b c d := by psm_agree
 
 theorem approximate_remaining_exit_fees_agrees (a b c : Rat) :
-    Generated.Machines.approximate_remaining_exit_fees a b c = approximateRemainingExitFees a b c := by
-  simp only [Generated.Machines.approximate_remaining_exit_fees, approximateRemainingExitFees]
+    Generated.Machines.approximate_remaining_exit_fees a b c = approximateRemainingExitFees a b c := by psm_agree
 
 theorem calculate_pnl_unrealised_agrees (s : G.Side) (a b c d e : Rat) :
     Generated.Machines.calculate_pnl_unrealised s a b c d e = calculatePnlUnrealised (ofSide s) a b c d e := by
-  cases s <;>
-    simp only [ofSide, Generated.Machines.calculate_pnl_unrealised, calculatePnlUnrealised,
-      approximate_remaining_exit_fees_agrees]
+  cases s <;> psm_agree
 
 theorem calculate_pnl_realised_agrees (s : G.Side) (a b c d : Rat) :
     Generated.Machines.calculate_pnl_realised s a b c d = calculatePnlRealised (ofSide s) a b c d := by
-  cases s <;> simp only [ofSide, Generated.Machines.calculate_pnl_realised, calculatePnlRealised, abs_agrees]
+  cases s <;> psm_agree
 
 /-! ## Helpers of `Position` -/
 
 theorem from_trade_agrees (t : G.Trade) : ofPos (Generated.Machines.Position.«from» t) = Position.ofTrade (ofTrade t) := by
-  simp [Generated.Machines.Position.«from», Position.ofTrade, ofPos, ofTrade, abs_agrees,
-    Generated.Machines.AssetFees.default]
+  rcases t with ⟨id, oid, ti, st, tt, ts, tp, tq, ⟨⟨⟩, tf⟩⟩
+  cases ts <;> psm_agree
 
 theorem exited_from_agrees (p : G.Position) :
     ofExited (Generated.Machines.PositionExited.«from» p) = PositionExited.ofPosition (ofPos p) := by
-  simp [Generated.Machines.PositionExited.«from», PositionExited.ofPosition, ofExited, ofPos]
+  rcases p with ⟨i, s, a, q, qm, pu, pr, ⟨⟨⟩, fe⟩, ⟨⟨⟩, fx⟩, te, tu, tr⟩
+  cases s <;> psm_agree
 
 theorem update_pnl_unrealised_agrees (p : G.Position) (price : Rat) :
     ofPos (p.update_pnl_unrealised price) = (ofPos p).updatePnlUnrealised price := by
-  simp [Generated.Machines.Position.update_pnl_unrealised, Position.updatePnlUnrealised, ofPos,
-    calculate_pnl_unrealised_agrees]
+  rcases p with ⟨i, s, a, q, qm, pu, pr, ⟨⟨⟩, fe⟩, ⟨⟨⟩, fx⟩, te, tu, tr⟩
+  cases s <;> psm_agree
 
 theorem update_pnl_realised_agrees (p : G.Position) (q pr f : Rat) :
     ofPos (p.update_pnl_realised q pr f) = (ofPos p).updatePnlRealised q pr f := by
-  simp [Generated.Machines.Position.update_pnl_realised, Position.updatePnlRealised, ofPos,
-    calculate_pnl_realised_agrees]
+  rcases p with ⟨i, s, a, q, qm, pu, pr, ⟨⟨⟩, fe⟩, ⟨⟨⟩, fx⟩, te, tu, tr⟩
+  cases s <;> psm_agree
 
 /-! ## `Position::update_from_trade` -/
 
-/-- unfold both sides of the agreement down to record literals -/
-local macro "unfold_both" : tactic => `(tactic|
-  simp [Generated.Machines.Position.update_from_trade, Position.Position.updateFromTrade, ofPos, ofTrade, ofSide,
-    ofExited, abs_agrees, Position.pushTrade, Position.increase, Position.reduce, Position.closeExact, Position.flip,
-    Position.ofTrade, PositionExited.ofPosition,
-    Generated.Machines.Position.«from», Generated.Machines.PositionExited.«from», Generated.Machines.AssetFees.default,
-    Generated.Machines.Position.update_price_entry_average,
-    Generated.Machines.Position.update_pnl_unrealised, Generated.Machines.Position.update_pnl_realised,
-    Position.updatePnlUnrealised, Position.updatePnlRealised,
-    calculate_price_entry_average_agrees, calculate_pnl_unrealised_agrees, calculate_pnl_realised_agrees, *])
-
-set_option linter.unusedSimpArgs false in
 theorem update_from_trade_agrees (p : G.Position) (t : G.Trade) :
     (ofPos p).updateFromTrade (ofTrade t)
       = ((p.update_from_trade t).1.map ofPos, (p.update_from_trade t).2.map ofExited) := by
   rcases p with ⟨i, s, a, q, qm, pu, pr, ⟨⟨⟩, fe⟩, ⟨⟨⟩, fx⟩, te, tu, tr⟩
   rcases t with ⟨id, oid, ti, st, tt, ts, tp, tq, ⟨⟨⟩, tf⟩⟩
   by_cases hi : i = ti
-  · by_cases h1 : q > Position.abs tq
-    · cases s <;> cases ts <;> unfold_both <;> (try split) <;> simp_all [ofPos, ofSide, ofExited]
+  · by_cases h1 : q < Position.abs tq
+    · cases s <;> cases ts <;> psm_agree
     · by_cases h2 : q = Position.abs tq
-      · cases s <;> cases ts <;> unfold_both <;> (try split) <;> simp_all [ofPos, ofSide, ofExited]
-      · have h3 : q < Position.abs tq := by grind
-        have h2' : ¬ Position.abs tq = q := fun h => h2 h.symm
-        cases s <;> cases ts <;> unfold_both <;> (try split) <;> simp_all [ofPos, ofSide, ofExited]
-  · unfold_both
+      · cases s <;> cases ts <;> psm_agree
+      · cases s <;> cases ts <;> psm_agree
+  · psm_agree
 
 /-! ## `PositionManager::update_from_trade` -/
 
@@ -158,9 +166,14 @@ theorem manager_update_agrees (m : G.PositionManager) (t : G.Trade) :
     (ofManager m).update (ofTrade t)
       = (ofManager (m.update_from_trade t).1, (m.update_from_trade t).2.map ofExited) := by
   rcases m with ⟨_ | p⟩
-  · simp [Generated.Machines.PositionManager.update_from_trade, PositionManager.update, ofManager, from_trade_agrees]
-  · simp [Generated.Machines.PositionManager.update_from_trade, PositionManager.update, ofManager,
-      update_from_trade_agrees]
+  · -- both the lemma about `Position::from` and the goal are unfolded with the same simp set: the generated
+    -- sub-term is then literally the same on both sides and `grind` only has to take the manager's own step
+    have h := from_trade_agrees t
+    simp only [gen_position_sm, PositionManager.update, ofManager, Option.map] at h ⊢
+    grind
+  · have h := update_from_trade_agrees p t
+    simp only [gen_position_sm, PositionManager.update, ofManager, Option.map] at h ⊢
+    grind
 
 /-! ## Everything at once -/
 
